@@ -98,6 +98,12 @@ func registerIntrinsics() {
 	})
 	reg("vCover", func(fr *frame, a []value) value {
 		fr.i.path.covers[a[0].(string)] = true
+		if a[0].(string) == "done" && fr.i.P.params["twin"] == 1 && fr.i.path.replay == nil {
+			// vacuity twin: the end of the harness must be reachable, i.e.
+			// a final assert(false) must come back violated
+			fr.i.recordViolation("assert", "vacuity-twin-reached-the-end", "", fr.i.path.model)
+			panic(engineAbort{abStop, "vacuity twin"})
+		}
 		return nil
 	})
 	reg("vTrace", func(fr *frame, a []value) value {
